@@ -129,22 +129,27 @@ for sig, (detail, ctx) in sfound.items():
 c.log('segment level, concurrent: %d run(s), %d closed-path copies bracketed in the validated trace, %s' % (sruns, sclosed, sstats_seg))
 
 # ---- tsTable level: concurrent runs, every copy inspected and opened, trace validated ----
-runs = 2 if c.quick else 8
+runs = 3 if c.quick else 9          # every third run drives the stream engine
 rnd = random.Random(c.seed)
 traces, nsnaps, events, samples, selftest = 0, 0, 0, [], None
 for i in range(runs):
     life = os.path.join(core.BUILD, 'out', 'c19-life-%d-%d.ndjson' % (os.getpid(), i))
     vis = os.path.join(core.BUILD, 'out', 'c19-vis-%d-%d.ndjson' % (os.getpid(), i))
-    cfg = dict(lifecycle=life, visibility=vis, millis=2500 if c.quick else 8000, writers=rnd.choice([2, 3]), readers=1, batchRows=rnd.choice([1, 2]), snapshots=True)
-    r = c.run_harness(binp, ['-mode', 'stress', '-cfg', json.dumps(cfg)], timeout=600)
-    if r['inconclusive']:
-        c.inconclusive('; '.join(r['inconclusive'][:3]))
-    for vv in r['violations']:
-        c.report(vv['signature'], vv['detail'], {'cfg': cfg, 'harness': 'eng/stress'})
-    ll = open(life).read().splitlines()[: (8000 if c.quick else 30000)]   # a prefix of a trace is a trace
-    os.remove(life); os.remove(vis)
-    ends = [json.loads(x) for x in ll if '"FileSnapEnd"' in x]
-    wrote = [e for e in ends if e['wrote']]
+    cfg = dict(lifecycle=life, visibility=vis, millis=2500 if c.quick else 8000, writers=rnd.choice([2, 3]), readers=1, batchRows=rnd.choice([1, 2]), snapshots=True,
+               engine='stream' if i % 3 == 2 else 'measure')
+    for attempt in range(3):
+        r = c.run_harness(binp, ['-mode', 'stress', '-cfg', json.dumps(cfg)], timeout=900)
+        if r['inconclusive']:
+            c.inconclusive('; '.join(r['inconclusive'][:3]))
+        for vv in r['violations']:
+            c.report(vv['signature'], vv['detail'], {'cfg': cfg, 'harness': 'eng/stress'})
+        ll = open(life).read().splitlines()[: (8000 if c.quick else 30000)]   # a prefix of a trace is a trace
+        os.remove(life); os.remove(vis)
+        ends = [json.loads(x) for x in ll if '"FileSnapEnd"' in x]
+        wrote = [e for e in ends if e['wrote']]
+        if len(wrote) >= 3 or r['violations']:
+            break
+        cfg['millis'] *= 3          # a loaded machine: give the run more time before calling it vacuous
     if len(wrote) < 3:
         c.inconclusive('run %d took only %d non-empty file snapshots' % (i, len(wrote)))
     nsnaps += len(wrote)
@@ -163,13 +168,13 @@ for i in range(runs):
         selftest = not validate(ll[:j] + [json.dumps(e)] + ll[j + 1:], 'c19s')[0]
         if not selftest:
             c.inconclusive('binding self-test failed: an incomplete copy was accepted')
-    c.log('run %d: %d events, %d non-empty file snapshots (%d with merges in between)' % (i, len(ll), len(wrote), sum(1 for e in wrote if len(e['copied']) > 1)))
+    c.log('run %d (%s): %d events, %d non-empty file snapshots (%d with merges in between)' % (i, cfg['engine'], len(ll), len(wrote), sum(1 for e in wrote if len(e['copied']) > 1)))
 
 c.cov.update(states=d.distinct, transitions=d.generated, traces_validated_against_impl=traces, trace_events=events, file_snapshots_checked=nsnaps,
              segment_behaviours_replayed=res['behaviours'], evaluations=nsnaps + res['behaviours'], distinct_nontrivial=nsnaps,
              binding_selftest_rejected=selftest,
              rule='tsTable level: every TakeFileSnapshot call of a concurrent real run (15 ms period, while writes/flushes/merges/GC run) is inspected and opened with initTSTable and must be accepted by TSTableTrace.tla (copy = file parts of one snapshot current during the call; manifest parts present; opens with exactly those parts); segment level: SegmentAPI behaviours with a snapshot step after idle-close/retention/forced steps replayed on a real TSDB (closed segments stay closed, flagged ones skipped, one directory per copied segment); non-trivial = non-empty snapshot copy',
              samples=samples)
-c.assumptions += ['measure tsTable only; whole-database restore through banyand/backup is not exercised',
+c.assumptions += ['measure and stream tsTables (trace engine not driven); whole-database restore through banyand/backup is not exercised',
                   'row content of a hard-linked part equals the source by construction; consistency is decided on part identities']
 c.finish()
